@@ -240,6 +240,32 @@ func (fc *fileCtx) collect(e ast.Node, write map[ast.Expr]bool, out *[]accRef) {
 		if u, ok := n.(*ast.UnaryExpr); ok && u.Op == token.AND {
 			addrOf[ast.Unparen(u.X)] = true
 		}
+		// x.f.g and x.f.M() with M declared on the pointer, where f holds a struct VALUE: x.f is only a path to
+		// the nested object (SSA: FieldAddr of FieldAddr, the outer field is never loaded as a whole) - the
+		// access, if any, is the one of g inside the nested struct and is hooked at the outer selector. A value
+		// receiver method or a pointer held in f does load f and keeps its hook.
+		if outer, ok := n.(*ast.SelectorExpr); ok {
+			if inner, ok := ast.Unparen(outer.X).(*ast.SelectorExpr); ok {
+				if isel := fc.info.Selections[inner]; isel != nil && isel.Kind() == types.FieldVal {
+					if _, isStruct := isel.Type().Underlying().(*types.Struct); isStruct {
+						if osel := fc.info.Selections[outer]; osel != nil {
+							switch osel.Kind() {
+							case types.FieldVal:
+								addrOf[inner] = true
+							case types.MethodVal:
+								if fn, ok := osel.Obj().(*types.Func); ok {
+									if sig, ok := fn.Type().(*types.Signature); ok && sig.Recv() != nil {
+										if _, ptrRecv := sig.Recv().Type().(*types.Pointer); ptrRecv {
+											addrOf[inner] = true
+										}
+									}
+								}
+							}
+						}
+					}
+				}
+			}
+		}
 		return true
 	})
 	ast.Inspect(e, func(n ast.Node) bool {
